@@ -13,7 +13,8 @@ META = {
             'cancellation: see C20 (C20_once_prefix).',
 }
 THEOREMS = ['Scalibr.Walk.C10_inodes', 'Scalibr.Walk.C10_size', 'Scalibr.Walk.C10_cancel_walk', 'Scalibr.Walk.C10_cancel_same_file',
-            'Scalibr.Walk.C10_cancel_before', 'Scalibr.Walk.walkNode_inv', 'Scalibr.Walk.runRoots_visited', 'Scalibr.Walk.runRoots_sizeInv']
+            'Scalibr.Walk.C10_cancel_before', 'Scalibr.Walk.walkNode_inv', 'Scalibr.Walk.runRoots_visited', 'Scalibr.Walk.runRoots_sizeInv',
+            'Scalibr.Walk.C10_inodes_exact', 'Scalibr.Walk.C10_cancel_trace', 'Scalibr.Walk.C10_cancel_prefix', 'Scalibr.Walk.run_trace']
 
 
 def run(ctx):
@@ -32,6 +33,14 @@ def run(ctx):
         mi, mx, ca, cb = int(c['mi']), int(c['mx']), int(c['ca']), int(c['cb'])
         if mi > 0 and fi.get('vis', '0').isdigit() and int(fi['vis']) > mi:
             return 'AfterInodeVisited ran %s times with MaxInodes=%d' % (fi['vis'], mi)
+        if fm.get('limithyp') == '1' and fm.get('specvisits', '').isdigit():
+            # theorem C10_inodes_exact (hypothesis LimitCfg): fails exactly when the forest holds more inodes to visit than
+            # the limit (specification: visitsScan), and reports exactly min(visitsScan, MaxInodes) visited inodes
+            sv = int(fm['specvisits'])
+            want_err, want_vis = ('maxinodes' if sv > mi else 'none'), str(min(sv, mi))
+            if fi.get('err') != want_err or fi.get('vis') != want_vis:
+                return 'MaxInodes=%d and the scan has %d inodes to visit: expected err=%s vis=%s, the scan reported err=%s vis=%s' % (
+                    mi, sv, want_err, want_vis, fi.get('err'), fi.get('vis'))
         calls = W.fl(fi.get('calls'))
         if mx > 0:
             for cl in calls:
